@@ -25,6 +25,7 @@
   lists of strings, as an explicit hypothesis.
 -/
 import TypedpyModel.Sem.Validate
+import TypedpyModel.Sem.Deser
 namespace Typedpy.Err
 open Typedpy
 
@@ -620,6 +621,9 @@ The scratch names are an input of the model (observed by the harness just before
 
 inductive P1Kind where
   | named | inner | foreign
+  /-- a dict document of a top-level class-reference field: the nested structure's own error is
+      passed through unchanged (its path is the NESTED field's), nothing of the outer field is added -/
+  | nested
 deriving Repr, DecidableEq, Inhabited
 
 structure P1Site where
@@ -740,6 +744,169 @@ def p1Sites (O : Oracles) (scr : List (String × List (Option String))) (doc : L
     match lookup nf.1 doc with
     | none => none
     | some v => if v.isNone then none else p1Site O ((lookup nf.1 scr).getD []) nf.1 nf.2 v
+
+/-! ### deserialization at any nesting depth: the head of the text `deserialize_single_field` raises
+
+Accept / reject (and the exception class) come from `deser` (Sem/Deser.lean, the full model of
+`deserialize_single_field` at any depth, nested structures included).  Here: the text every such
+rejection is GUARANTEED to begin with, as a function of the declaration tree, the name handed down
+and the position of the first rejected element — independent of every scratch `_name`:
+  * `deserialize_list_like`, homogeneous items: element `i` is deserialized under `<name>_<i>`; its
+    error is kept if it starts with `<name>_<i>`, else prefixed `<name>_<i>: `;
+  * positional items: element `i` is deserialized under `<name>` and ALWAYS prefixed `<name>_<i>: `;
+  * `deserialize_map`: value (first) and key under `<name>`; kept if the text starts with `<name>:`
+    or `<name>_`, else prefixed `<name>: `;
+  * Enum and other `SerializableField`s: kept if it starts with `<name>`, else prefixed `<name>: `;
+  * StructureReference, AnyOf / OneOf / AllOf / NotField, NoneField, "not list-like", "not a dict",
+    "too short", `set(values)`: the branch's own `<name>: Got …` (`<name>: Expected a dictionary; Got …`
+    for a class reference given a non-dict);
+  * a class reference given a dict: NOTHING — the nested structure's error passes through unchanged;
+  * Number / String / Boolean: the field's own scratch `_name` (nothing guaranteed here; the wrappers
+    above supply the path). -/
+
+def firstFail (ok : PyVal → Bool) : Nat → List PyVal → Option (Nat × PyVal)
+  | _, [] => none
+  | i, x :: xs => if ok x then firstFail ok (i + 1) xs else some (i, x)
+
+def startsWith (p t : Text) : Bool := (dropPre p t).isSome
+
+def sColonGot : Text := [':', ' ', 'G', 'o', 't', ' ']
+def sExpDict : Text := ": Expected a dictionary; Got ".toList
+
+/-- homogeneous list-like element wrapper -/
+def dWrapIdx (name : Text) (i : Nat) (inner : Text) : Text :=
+  let ni := name ++ ('_' :: natText i i)
+  if startsWith ni inner then inner else ni
+
+/-- `deserialize_map` entry wrapper -/
+def dWrapMap (name : Text) (inner : Text) : Text :=
+  if startsWith (name ++ [':']) inner || startsWith (name ++ ['_']) inner then inner else name
+
+def dHeadHomog (ok : PyVal → Bool) (h : Text → PyVal → Text) (name : Text) (xs : List PyVal) :
+    Option Text :=
+  (firstFail ok 0 xs).map fun ix => dWrapIdx name ix.1 (h (name ++ ('_' :: natText ix.1 ix.1)) ix.2)
+
+/-- entries in dict order, the value before the key -/
+def dHeadEntries (okK okV : PyVal → Bool) (hK hV : Text → PyVal → Text) (name : Text) :
+    List (PyVal × PyVal) → Option Text
+  | [] => none
+  | (k, x) :: rest =>
+    if !okV x then some (dWrapMap name (hV name x))
+    else if !okK k then some (dWrapMap name (hK name k))
+    else dHeadEntries okK okV hK hV name rest
+
+def dHeadListLike (name : Text) (v : PyVal) (k : List PyVal → Option Text) : Text :=
+  match listLike v with
+  | none => name ++ sColonGot
+  | some xs => (k xs).getD (name ++ sColonGot)    -- `content_type(values)` failing: `<name>: Got …`
+
+def mapOpts (opts : DeserOpts) : DeserOpts := { opts with keepUndefined := true }
+
+mutual
+/-- what the text of a rejection by `deserialize_single_field(f, v, name)` is guaranteed to begin
+    with (`[]`: nothing).  Structural recursion over the declaration tree, any depth. -/
+def dHead (O : Oracles) (opts : DeserOpts) : FieldDecl → Text → PyVal → Text
+  | .seqAny _ _, name, v => dHeadListLike name v fun _ => none
+  | .setAny _ _, name, v => dHeadListLike name v fun _ => none
+  | .seqOf _ item _, name, v =>
+    dHeadListLike name v (dHeadHomog (fun x => isOk (deser O opts false item x)) (dHead O opts item) name)
+  | .setOf _ item _, name, v =>
+    dHeadListLike name v (dHeadHomog (fun x => isOk (deser O opts false item x)) (dHead O opts item) name)
+  | .tupleOf item _, name, v =>
+    dHeadListLike name v (dHeadHomog (fun x => isOk (deser O opts false item x)) (dHead O opts item) name)
+  | .seqPos _ fs _ _, name, v =>
+    dHeadListLike name v fun xs =>
+      if xs.length < fs.length then none else dHeadZip O opts name 0 fs xs
+  | .tuplePos fs _, name, v =>
+    dHeadListLike name v fun xs =>
+      if xs.length < fs.length then none else dHeadZip O opts name 0 fs xs
+  | .mapAny _, name, _ => name ++ sColonGot
+  | .mapOf kf vf _, name, v =>
+    (match v with
+     | .dict kvs =>
+       (dHeadEntries (fun k => isOk (deser O (mapOpts opts) false kf k))
+          (fun x => isOk (deser O (mapOpts opts) false vf x))
+          (dHead O (mapOpts opts) kf) (dHead O (mapOpts opts) vf) name kvs).getD name
+     | _ => name ++ sColonGot)
+  | .struct c _ _, name, v =>
+    if c.inline then name ++ sColonGot
+    else (match v with
+      | .dict _ => []
+      | _ => name ++ sExpDict)
+  | .enumLit _, name, _ => name
+  | .enumCls _ _, name, _ => name
+  | .anyOf _, name, _ => name ++ sColonGot
+  | .oneOf _, name, _ => name ++ sColonGot
+  | .allOf _, name, _ => name ++ sColonGot
+  | .notF _, name, _ => name ++ sColonGot
+  | .noneF, name, _ => name ++ sColonGot
+  | .number _, _, _ => []
+  | .integer _, _, _ => []
+  | .float _, _, _ => []
+  | .string _ _ _, _, _ => []
+  | .boolean, _, _ => []
+  | .anything, _, _ => []
+termination_by structural f _ _ => f
+
+/-- positional items: the first rejected element `i`: `<name>_<i>: ` + what its field guarantees
+    under `<name>` -/
+def dHeadZip (O : Oracles) (opts : DeserOpts) (name : Text) : Nat → List FieldDecl → List PyVal → Option Text
+  | _, [], _ => none
+  | _, _ :: _, [] => none
+  | i, f :: fs, x :: xs =>
+    if isOk (deser O opts false f x) then dHeadZip O opts name (i + 1) fs xs
+    else some (name ++ ('_' :: natText i i) ++ [':', ' '] ++ dHead O opts f name x)
+termination_by structural _ fs _ => fs
+end
+
+/-- a class reference (`ClassReference`, not the inline `StructureReference`) -/
+def isClassRef : FieldDecl → Bool
+  | .struct c _ _ => !c.inline
+  | _ => false
+
+/-- the phase-one rejection site of one supplied, non-null document value of a field of ANY
+    declaration: exists exactly when `deser` rejects; flat fields keep the finer (scratch-aware)
+    model `p1Site`. -/
+def p1SiteD (O : Oracles) (opts : DeserOpts) (ign : Bool) (scr : List (Option String)) (name : String)
+    (f : FieldDecl) (v : PyVal) : Option P1Site :=
+  if isFlatDecl f then p1Site O scr name f v
+  else match deser O opts ign f v with
+    | .ok _ => none
+    | .error e =>
+      if isClassRef f && (match v with | .dict _ => true | _ => false)
+      then some ⟨name, .nested, none, e⟩
+      else some ⟨name, .named, some (dHead O opts f name.toList v), e⟩
+
+def p1SitesD (O : Oracles) (opts : DeserOpts) (ign : Bool) (scr : List (String × List (Option String)))
+    (doc : List (String × PyVal)) (fields : List (String × FieldDecl)) : List P1Site :=
+  fields.filterMap fun nf =>
+    match lookup nf.1 doc with
+    | none => none
+    | some v => if v.isNone then none else p1SiteD O opts ign ((lookup nf.1 scr).getD []) nf.1 nf.2 v
+
+/-- the keyword arguments phase one hands to the constructor (the fields it accepts, deserialized) -/
+def deserArgs (O : Oracles) (opts : DeserOpts) (ign : Bool) (doc : List (String × PyVal))
+    (fields : List (String × FieldDecl)) : List (String × PyVal) :=
+  fields.filterMap fun nf =>
+    match lookup nf.1 doc with
+    | none => none
+    | some v => if v.isNone then none else
+      match deser O opts ign nf.2 v with
+      | .ok y => some (nf.1, y)
+      | .error _ => none
+
+/-- the supplied fields that deserialization must reject, at any depth: phase one rejects the
+    document value, or the constructor rejects what phase one made of it (the property's right-hand
+    side for deserialization; message code plays no part) -/
+def deserInvalid (O : Oracles) (opts : DeserOpts) (ign : Bool) (doc : List (String × PyVal))
+    (fields : List (String × FieldDecl)) : List String :=
+  fields.filterMap fun nf =>
+    match lookup nf.1 doc with
+    | none => none
+    | some v => if v.isNone then none else
+      match deser O opts ign nf.2 v with
+      | .ok y => if isOk (validate O nf.2 y) then none else some nf.1
+      | .error _ => some nf.1
 
 /-- a key-renaming mapper (`_serialization_mapper` / `_deserialization_mapper` dict, TO_LOWERCASE,
     TO_CAMELCASE, `Deserializer(mapper=…)`, `camel_case_convert`; aggregated to field ↦ document key):
